@@ -13,7 +13,8 @@ import z3
 from . import sym
 
 TIMEOUT_MS = int(os.environ.get('PYVC_TIMEOUT_MS', '15000'))
-EXT_TIMEOUT_S = int(os.environ.get('PYVC_EXT_TIMEOUT_S', '30'))
+EXT_TIMEOUT_S = int(os.environ.get('PYVC_EXT_TIMEOUT_S', '10'))
+RETRY_MS = int(os.environ.get('PYVC_RETRY_MS', '5000'))
 
 
 def _mentions(fs, names):
@@ -173,10 +174,10 @@ def solve(ob, want_model=True, second_opinion=False):
         ob.reason = s.reason_unknown()
         # second try: different random seed / no mbqi
         for opts in ({'smt.random_seed': 7}, {'smt.mbqi': False}):
-            s2 = build_solver(ob, TIMEOUT_MS)
+            s2 = build_solver(ob, RETRY_MS)
             for k, v in opts.items():
                 s2.set(k, v)
-            r2 = _watchdog_check(s2, TIMEOUT_MS / 1000 + 5)
+            r2 = _watchdog_check(s2, RETRY_MS / 1000 + 5)
             if r2 == z3.unsat:
                 ob.status = 'unsat'
                 ob.backend += '+retry%s' % (list(opts)[0],)
@@ -238,7 +239,7 @@ def model_eval_bool(m, t, default=False):
         return default
 
 
-def model_eval_seq(m, s, maxlen=64):
+def model_eval_seq(m, s, maxlen=400):
     """concretise an SSeq under a model -> python str / list"""
     if isinstance(s, str):
         return s
